@@ -172,6 +172,25 @@ func inheritedAudit(c *Ctx, o *Obligation, t *Tables, produced map[string]bool, 
 			return e, true
 		}
 	}
+	// the audited construct respelled inside the SAME function: the value moved from a parameter into a
+	// local (`list, quoteLevel := stripQuotes(v)` … `list.Cells[1]` where `v.Cells[1]` was audited) or
+	// the ordinal shifted; each audited entry is consumed once and only while F no longer produces it,
+	// so the number of excused sites cannot grow
+	{
+		var ks []string
+		for k, e := range t.Audited {
+			if e.Rule == o.Rule && e.Func == o.Func && loose(e.Construct) == want && !produced[k] && !consumed[k] {
+				ks = append(ks, k)
+			}
+		}
+		sort.Strings(ks)
+		if len(ks) > 0 {
+			e := t.Audited[ks[0]]
+			consumed[ks[0]] = true
+			e.Reason = "the audited construct " + e.Construct + " of this function, respelled: " + e.Reason
+			return e, true
+		}
+	}
 	// the audited access moved into a private ACCESSOR of the same function and its obligation was
 	// lifted back to the call: `m[i].Cells[0].Str` became `entryKeyName(m[i])` with the index inside
 	// the helper — the obligation `call entryKeyName with $0[…]` stands where `$0[…].Cells[0]` stood
